@@ -112,4 +112,9 @@ theorem C05_chain_print_never_panics (e : Env) (cs : CS) (noBreakSingle spaceAro
     ∀ s site, (cs.print e noBreakSingle spaceAroundOp).run s ≠ .error (.panic site) :=
   chain_print_no_panic e cs noBreakSingle spaceAroundOp hne hh
 
+/-- The premises of `C05_chain_print_never_panics` are satisfiable (a chain with one body), and the
+excluded case is exactly the one that would panic: an attached comment with nothing before it. -/
+example (d : Twin.Doc) : ([CItem.body d] ≠ []) ∧ headOK [CItem.body d] = true := ⟨by simp, rfl⟩
+example (d : Twin.Doc) : headOK [CItem.attached d] = false := rfl
+
 end Typstyle
